@@ -50,7 +50,9 @@ def tryFoldO {β σ : Type} (f : σ → β → Option σ) : σ → List β → O
     | none => none
     | some s' => tryFoldO f s' xs
 
-/-- mixture.rs:104-127 `validate_weights`.
+/-- mixture.rs:104-127 `validate_weights` (after the repair "Mixture weight validation rejects NaN weights":
+    the sum test is `!((sum - 1.0).abs() <= 1E-12)`, mixture.rs:121, so a NaN sum — i.e. a NaN weight — is rejected
+    with `WeightsDoNotSumToOne`).
     `WeightTooLow { ix, weight }` ↦ payload `[ix, weight]`, `WeightsDoNotSumToOne { sum }` ↦ `[sum]`. -/
 def validateWeights (weights : List α) : Except (Err α) Unit :=
   if weights.isEmpty then .error (Err.mk "WeightsEmpty" [])                       -- :106-108
@@ -60,7 +62,7 @@ def validateWeights (weights : List α) : Except (Err α) Unit :=
             else .ok (sum + p.2)) (0.0 : α) (enumL weights) with
     | .error e => .error e
     | .ok sum =>                                                                  -- :120-126
-      if RealLike.gt (RealLike.abs (sum - (1.0 : α))) (1E-12 : α)
+      if !(RealLike.le (RealLike.abs (sum - (1.0 : α))) (1E-12 : α))                -- :121 `!(… <= 1E-12)`: NaN sum ⇒ error
       then .error (Err.mk "WeightsDoNotSumToOne" [sum])
       else .ok ()
 
